@@ -109,12 +109,76 @@ def scenarios(tier):
     return out
 
 
-def main(tier, replay, seed):
+FUNCTIONS = ["paramiko.channel.Channel.fileno", "paramiko.buffered_pipe.BufferedPipe.set_event", "paramiko.pipe.make_or_pipe",
+             "paramiko.pipe.OrPipe.set", "paramiko.pipe.OrPipe.clear", "paramiko.pipe.PosixPipe.set", "paramiko.pipe.PosixPipe.clear"]
+STUBS = ["sequential part: real Channel, real OS pipe and real select(); recording fake transport"]
+ASSUMPTIONS = ["sequential part: fileno() is called on a channel in any buffer state (0..2 bytes on stdout and stderr, either stream "
+               "closed or not), then one more sequential operation (feed / read / close of either stream) follows"]
+EXPLANATION = "Sequential part: buffer levels, closed flags and the following operation are solver choices; the interleavings are the model-checked part."
+
+
+def establish_case():
+    """what the interleaving scenarios take as their starting point: fileno() on a channel in ANY buffer state leaves the
+    descriptor readable exactly when recv would not block, and one further sequential operation keeps it so"""
+    def fn(ctx):
+        from sx.harness import Case as _C   # noqa
+        from props._chan import make_channel
+        n_out = ctx.choice("stdout-bytes-buffered", [0, 1, 2])
+        n_err = ctx.choice("stderr-bytes-buffered", [0, 1, 2])
+        out_closed = ctx.flag("stdout-buffer-closed")
+        err_closed = ctx.flag("stderr-buffer-closed")
+        c = make_channel([])
+        if n_out:
+            c.in_buffer.feed(b"o" * n_out)
+        if n_err:
+            c.in_stderr_buffer.feed(b"e" * n_err)
+        if out_closed:
+            c.in_buffer.close()
+        if err_closed:
+            c.in_stderr_buffer.close()
+        fd = c.fileno()
+
+        def agree(label):
+            readable = bool(select.select([fd], [], [], 0)[0])
+            want = len(c.in_buffer) > 0 or len(c.in_stderr_buffer) > 0 or c.in_buffer._closed or c.in_stderr_buffer._closed
+            ctx.prove(readable == want, label)
+        try:
+            agree("after-fileno():descriptor-readable-iff-recv-would-not-block")
+            ctx.prove(c.fileno() == fd, "fileno()-is-stable")
+            nxt = ctx.choice("then", ["nothing", "feed-stdout", "feed-stderr", "read-stdout", "read-stderr", "close-stdout", "close-stderr"])
+            import paramiko.buffered_pipe as BP
+            try:
+                if nxt == "feed-stdout":
+                    c.in_buffer.feed(b"x")
+                elif nxt == "feed-stderr":
+                    c.in_stderr_buffer.feed(b"x")
+                elif nxt == "read-stdout":
+                    c.in_buffer.read(8, 0.0)
+                elif nxt == "read-stderr":
+                    c.in_stderr_buffer.read(8, 0.0)
+                elif nxt == "close-stdout":
+                    c.in_buffer.close()
+                elif nxt == "close-stderr":
+                    c.in_stderr_buffer.close()
+            except BP.PipeTimeout:
+                pass
+            agree("after-one-more-operation:descriptor-readable-iff-recv-would-not-block")
+        finally:
+            c._pipe.close()
+    from sx.harness import Case
+    return Case("fileno-establishes-the-invariant", fn, ["after-fileno():descriptor-readable-iff-recv-would-not-block",
+                                                       "after-one-more-operation:descriptor-readable-iff-recv-would-not-block"],
+                {"stdout/stderr buffered": "0..2 bytes each", "closed flags": "any", "next operation": 7})
+
+
+def cases(tier):
+    return [establish_case()]
+
+
+def run_scenarios(tier, seed):
     import paramiko.pipe as PP
     import paramiko.buffered_pipe as BP
-    from cfa.driver import run_property, replay_file
-    if replay:
-        return replay_file(PROPERTY, scenarios("thorough"), replay)
+    from cfa.driver import run_property
     fns = [PP.OrPipe.set, PP.OrPipe.clear, PP.PosixPipe.set, PP.PosixPipe.clear, BP.BufferedPipe.feed, BP.BufferedPipe.read,
            BP.BufferedPipe.empty, BP.BufferedPipe.close]
     return run_property(PROPERTY, scenarios(tier), tier, seed, fns,
@@ -124,4 +188,4 @@ def main(tier, replay, seed):
                         ["two threads, one operation each (feed 1 byte / non-blocking read / empty / close), starting from ANY buffer "
                          "state with 0..2 bytes per stream and a descriptor consistent with it",
                          "checked at quiescence (both operations finished)"],
-                        "Scenarios: every listed pair of operations on the stdout/stderr BufferedPipes behind one OrPipe pair.")
+                        "Scenarios: every listed pair of operations on the stdout/stderr BufferedPipes behind one OrPipe pair.", merge="e2-primary")
